@@ -35,7 +35,7 @@ ASSUMPTIONS = [
     "header lines contain ASCII only (the parser opens files in the locale's encoding)",
 ]
 REQUIRED = {"all": ["layouts", "clean_parsed", "corruptions_rejected", "corruptions_still_valid", "second_header_cases",
-                    "star_cases", "same_size_overwrites", "object_battery_compared", "crlf_layouts", "numbered_layouts", "second_file_object_checked", "pathlib_paths", "relative_paths", "raw_byte_corruptions", "reused_parser_and_frontend_parses", "lines_starting_with_record_keywords", "files_beyond_64kB"]}
+                    "star_cases", "same_size_overwrites", "object_battery_compared", "crlf_layouts", "numbered_layouts", "second_file_object_checked", "pathlib_paths", "relative_paths", "raw_byte_corruptions", "reused_parser_and_frontend_parses", "lines_starting_with_record_keywords", "files_beyond_64kB", "histories_with_preserved_file_times"]}
 NLAYOUT = {"quick": 600, "thorough": 6000}
 NCORR = {"quick": 30, "thorough": 60}
 PANEL = list("*>#-_.,;:!?@$%&/\\|()[]{}<=+~^'\"`") + list("BJOUXZbjouxz") + list("aceg") + ["\t", "\x0c", "\x00", "\x7f", "\n",
@@ -319,10 +319,20 @@ def judge(case, rep, S):
                     if got_raw != ERR:
                         rep.viol("parse_outcome", "bytes %r inside a sequence line of %r: parser returned %r instead of rejecting the file" % (
                             raw, info, got_raw[:80]), sig={"want_error": True, "got_error": False, "char": repr(raw), "kind": "raw_bytes"})
+    keep_times = None
+    if case["o"] % 3 == 1:
+        rep.cnt("histories_with_preserved_file_times")
     for kind, i, ch, content in variants:
         want = model(content)
         size = len(content.encode("utf-8"))
         write(path, content)
+        if case["o"] % 3 == 1:
+            # the file is replaced the way `cp -p`, `rsync -t` or an archive extraction replace it: new content, old time stamps
+            if keep_times is None:
+                st_ = os.stat(path)
+                keep_times = (st_.st_atime_ns, st_.st_mtime_ns)
+            else:
+                os.utime(path, ns=keep_times)
         if prev_ok and size == prev_size:
             rep.cnt("same_size_overwrites")
         got = parse_real(S, path, rng, rep)
